@@ -18,7 +18,13 @@ RULE = ("Generated release/death/update histories driven through the real State 
         "for every released pid, dense fill values) against a truth table kept by the harness. Non-trivial = history "
         "with a death before a record and a release after it. Scale cases (c06_scale.py, oracle only): the same clauses "
         "for every record of every file of large runs (1000..130000 particles with a trickle of deaths, a mass death, "
-        "> 1000 records, > 1000 files, > 1000 steps between records) through State+Output and through ladim.main.")
+        "> 1000 records, > 1000 files, > 1000 steps between records) through State+Output and through ladim.main. "
+        "Option cases (c06_opts.py, oracle only): the same clauses, plus lon/lat = the grid's longitude/latitude at the "
+        "state's position, on a fixed pairwise-covering set of small runs over the options on this path (layout, numrec, "
+        "numbered first file, period spellings, lon/lat with whole grid / subgrid, f8 / packed / f4 / integer encodings, "
+        "particle variable types, empty records, reference time, time reversal; through ladim.main also v1 / v2 / TOML "
+        "configuration, EF/RK2/RK4, diffusion, discrete / mult / continuous release, warm start, forcing in one / several "
+        "/ float32 / packed files), the truth there being the state recorded by a forcing plug-in at each record.")
 TRUSTED = ["Coq 8.16.1 kernel + vm_compute", "hand-written layout model coq/Model/Output.v (sparse_write, retrieve, write_pvars, dense_write) tied by this correspondence",
            "netCDF4/HDF5 store what they are given; values integer-coded"]
 ASSUMPTIONS = ["output datatypes lossless (f8/i4)"]
@@ -32,6 +38,13 @@ def gen_cases(ctx):
     import c06_scale
 
     out = c06_scale.gen_scale_cases()
+    # fixed option-combination cases (they draw nothing from rng either): a pairwise-covering set of small runs over the
+    # options on the path of this property (split output, lon/lat variables, subgrid, packed / float32 / integer
+    # encodings, dense layout, time reversal, warm start, continuous release, v1 / v2 / TOML configuration, advection
+    # schemes, diffusion, forcing in several / float32 / packed files ...); see c06_opts.py
+    import c06_opts
+
+    out += c06_opts.gen_opt_cases()
     for _ in range(70 if ctx.quick else 800):
         nsteps = rng.randint(1, 9)
         hist = []
@@ -133,6 +146,10 @@ def eval_case(desc, ctx):
         import c06_scale
 
         return c06_scale.eval_scale(desc, d)
+    if desc["k"] == "opts":
+        import c06_opts
+
+        return c06_opts.eval_opt(desc, d)
     if desc["k"] == "warm":
         return eval_warm(desc, d)
     if desc["k"] == "alldead":
